@@ -221,7 +221,21 @@ pub fn run_case(c: &GCase, cache: &ConfirmCache) -> CaseReport {
                 }
                 // every pure copy break must be rejected by the real prover
                 if let Some(rex) = &rex {
-                    for rw in rex.pure_copy_breaks.iter().take(16) {
+                    // one candidate per wire position first (last rows first: consumers
+                    // of the gadget's outputs), then the rest, up to a cap
+                    let mut ordered: Vec<&Rewire> = vec![];
+                    let mut seen_pos = std::collections::HashSet::new();
+                    for rw in rex.pure_copy_breaks.iter().rev() {
+                        if seen_pos.insert((rw.row, rw.wire)) {
+                            ordered.push(rw);
+                        }
+                    }
+                    for rw in rex.pure_copy_breaks.iter() {
+                        if !ordered.iter().any(|o| std::ptr::eq(*o, rw)) {
+                            ordered.push(rw);
+                        }
+                    }
+                    for rw in ordered.into_iter().take(32) {
                         let p = rewired_prog(&h, rw);
                         let real = conf.run_prog(&p);
                         rep.confirmed += 1;
